@@ -683,6 +683,17 @@ def summariser(db, cg, inline=(), opaque=(), **kw):
 def version_atom(a):
     """(predicate name, constant args) when the atom is the truth of a
     ConnectionContext.protocol_* call with constant arguments."""
+    if a[1] in ('<', '<=', '>', '>=', '==', '!=') and len(a[2]) == 2:
+        # the context's protocol number compared with a literal: decidable
+        # per version (whether such a guard *should* be numeric is R08.6)
+        l, r = a[2]
+        for x, y, flip in ((l, r, False), (r, l, True)):
+            if x[0] == 'attr' and x[2] == 'protocol_version' and \
+                    x[1][0] == 'attr' and x[1][2] == 'context' and \
+                    y[0] == 'const' and isinstance(y[1], int) and \
+                    not isinstance(y[1], bool):
+                return ('#cmp', a[1], flip), (y[1],)
+        return None
     if a[1] != 'truth':
         return None
     t = a[2][0]
@@ -717,6 +728,14 @@ def path_versions(P, path, upto=None):
 
     def holds(v):
         for (name, args), pol in tests:
+            if isinstance(name, tuple) and name[0] == '#cmp':
+                import operator as _o
+                f = {'<': _o.lt, '<=': _o.le, '>': _o.gt, '>=': _o.ge,
+                     '==': _o.eq, '!=': _o.ne}[name[1]]
+                r = f(args[0], v) if name[2] else f(v, args[0])
+                if bool(r) != pol:
+                    return False
+                continue
             fv = P.F.getattr(P.ctx(v), name, None, P.packet_ci.module)
             r = bool(P.F.call(fv, list(args), {}, None,
                               Env(P.packet_ci.module)))
@@ -949,7 +968,7 @@ def field_completeness_ps(report, rid, db, P, S, fi, paths=None):
     return len(per)
 
 
-def eof_fallback_ps(report, rid, db, S):
+def eof_fallback_ps(report, rid, db, S, others_too=True):
     """PlayingStatusReactor.handle_exception handles exactly EOFError:
     disconnects immediately, then takes the default-version path, and
     reports the exception as handled; every other path reports it as not
@@ -1012,6 +1031,40 @@ def eof_fallback_ps(report, rid, db, S):
         report.violation(rid, 'eof-fallback:noreturn', fi.path, fi.node,
                          fi.qualname, 'the EOF fallback never reports the '
                          'exception as handled')
+    # no other reactor claims an exception: a true result makes the
+    # dispatcher return at once -- no handler runs, nothing is recorded, the
+    # thread just ends
+    if not others_too:
+        return
+    base = db.get_class(CTX_MOD, 'PacketReactor')
+    others = 0
+    for rc in [base] + sorted(db.subclasses(base), key=lambda c: c.fq):
+        if rc is ci:
+            continue
+        hf = db.own_method(rc, 'handle_exception')
+        if hf is None:
+            continue
+        others += 1
+        for p in S.run(hf):
+            if not p.returns:
+                continue
+            v = p.value
+            if v[0] == 'const' and not v[1]:
+                continue
+            report.violation(
+                rid, 'eof-fallback:claimed:%s' % rc.qualname, hf.path,
+                hf.node, hf.qualname, '%s.handle_exception can report an '
+                'exception as handled [%s]: the dispatcher then returns '
+                'without running any handler or recording the exception, '
+                'so the networking thread ends silently -- only the '
+                'status probe of connect() may do that, for EOFError, by '
+                'falling back to the default version'
+                % (rc.qualname, p.cond_text()))
+            break
+    if others < 1:
+        raise AnalysisError('PacketReactor.handle_exception vanished')
+    report.ok(rid, '%d other reactor handler(s) never claim an exception'
+              % others)
 
 
 # -- sequences and mappings built from one iteration ------------------------
@@ -1344,8 +1397,551 @@ def forced_write_is_synchronous(report, R, db, S, M):
                              wr[0].node, wp.qualname, 'the forced write is '
                              'not made under the write lock')
             return
+        # ... and only that packet: the caller switches the framing right
+        # after the call, so anything else written here leaves in the old
+        # framing although it follows the switch-over point on the wire
+        writers = wire_writers(db, S.cg, M) if getattr(S, 'cg', None) \
+            is not None else {inner}
+        more = [e for e in evs if e not in wr and any(
+            t in writers and t is not wp for t in (e.targets or ()))]
+        if more:
+            report.violation(
+                R, 'forced-write:writes-others', wp.path, more[0].node,
+                wp.qualname, 'write_packet(force=True) also calls %s(), '
+                'which can put other packets on the wire [%s]: the login '
+                'reaction installs the cipher right after its forced '
+                'write, so those packets leave unencrypted after the point '
+                'from which the server decrypts' % (
+                    more[0].method(), p.cond_text()))
+            return
     if not n:
         raise AnalysisError('write_packet(force=True): no returning path',
                             wp.node, rel(wp.path))
     report.ok(R, 'write_packet(force=True): the packet has been written, '
               'under the lock, on all %d returning paths' % n)
+
+
+# ---------------------------------------------------------------------------
+# functions of their arguments: no path changes an object that outlives the
+# call (a module-level or class-level container), directly or through a local
+# name bound to that very object
+_MUTATING = ('append', 'add', 'update', 'extend', 'insert', 'pop', 'remove',
+             'clear', 'setdefault', 'popitem', 'sort', 'reverse', 'discard',
+             'difference_update', 'intersection_update',
+             'symmetric_difference_update', 'appendleft', 'popleft')
+_MUTABLE_CTORS = ('set', 'list', 'dict', 'defaultdict', 'OrderedDict',
+                  'deque', 'bytearray', 'Counter')
+
+
+def _mutable_value(v):
+    """True/False when the defining expression visibly is / is not a mutable
+    container, None when that cannot be told from its shape."""
+    if isinstance(v, (ast.Set, ast.List, ast.Dict, ast.ListComp, ast.SetComp,
+                      ast.DictComp)):
+        return True
+    if isinstance(v, (ast.Constant, ast.Tuple, ast.JoinedStr, ast.Lambda,
+                      ast.GeneratorExp, ast.Compare)):
+        return False
+    if isinstance(v, ast.Call):
+        f = v.func
+        nm = f.id if isinstance(f, ast.Name) else (
+            f.attr if isinstance(f, ast.Attribute) else None)
+        if nm in _MUTABLE_CTORS:
+            return True
+        if nm in ('frozenset', 'tuple', 'int', 'str', 'bytes', 'float',
+                  'bool', 'len', 'max', 'min', 'compile'):
+            return False
+    if isinstance(v, (ast.BinOp, ast.UnaryOp)):
+        return None
+    return None
+
+
+def shared_state_mutations(db, fi):
+    """Sites of `fi` where an object that outlives the call is changed in
+    place: [(ast node, shared expression text, how, via-alias bool)].  A
+    forward may-alias dataflow over the function's CFG tracks the local names
+    that can hold the very object of a module-level name / an attribute of a
+    class (`x = TABLE`, `x = TABLE if c else y`); a plain rebinding of the
+    local (`x = set(TABLE)`, `x = x | {..}`) ends the alias."""
+    from .cfg import cfg_of
+    node = fi.node
+    if isinstance(node, ast.Lambda):
+        return []
+    glob = set()
+    for x in ast.walk(node):
+        if isinstance(x, (ast.Global, ast.Nonlocal)):
+            glob.update(x.names)
+    local = set(a.arg for a in ast.walk(node.args) if isinstance(a, ast.arg))
+    for x in ast.walk(node):
+        if isinstance(x, ast.Name) and isinstance(x.ctx, (ast.Store, ast.Del)):
+            local.add(x.id)
+        elif isinstance(x, (ast.FunctionDef, ast.ClassDef)) and x is not node:
+            local.add(x.name)
+        elif isinstance(x, ast.ExceptHandler) and x.name:
+            local.add(x.name)
+        elif isinstance(x, ast.alias):
+            local.add((x.asname or x.name).split('.')[0])
+    local -= glob
+    first = fi.params[0] if fi.params else None
+
+    def shared_def(e):
+        """the defining expression of a module-/class-level object `e`
+        names, or None"""
+        if isinstance(e, ast.Name):
+            if e.id in local:
+                return None
+            try:
+                ent = db.resolve_dotted(fi.module, e, class_scope=None)
+            except AnalysisError:
+                return None
+            if isinstance(ent, tuple) and ent[0] == 'value':
+                return ent[1]
+            return None
+        if isinstance(e, ast.Attribute):
+            b = e.value
+            ci = None
+            if isinstance(b, ast.Name) and b.id == first and fi.cls is not None \
+                    and fi.kind == 'class':
+                ci = fi.cls
+            elif isinstance(b, ast.Name) and b.id not in local:
+                try:
+                    ent = db.deref(db.resolve_dotted(fi.module, b))
+                except AnalysisError:
+                    ent = None
+                from .srcdb import ClassInfo, Module
+                if isinstance(ent, ClassInfo):
+                    ci = ent
+                elif isinstance(ent, Module):
+                    r = db.module_attr(ent.name, e.attr)
+                    if isinstance(r, tuple) and r[0] == 'value':
+                        return r[1]
+                    return None
+            if ci is not None:
+                ad = db.find_attr(ci, e.attr)
+                if ad is not None and ad.kind == 'assign':
+                    return ad.value
+        return None
+
+    def holders(e, alias):
+        """shared objects `e` may evaluate to: list of (text, defining expr)"""
+        if isinstance(e, ast.IfExp):
+            return holders(e.body, alias) + holders(e.orelse, alias)
+        if isinstance(e, ast.BoolOp):
+            out = []
+            for v in e.values:
+                out += holders(v, alias)
+            return out
+        if isinstance(e, ast.NamedExpr):
+            return holders(e.value, alias)
+        if isinstance(e, ast.Name) and e.id in alias:
+            return list(alias[e.id])
+        d = shared_def(e)
+        if d is not None:
+            return [(ast.unparse(e), d)]
+        return []
+
+    g = cfg_of(fi)
+    IN = {n.id: {} for n in g.nodes}
+    work = [g.entry]
+    seen_once = set()
+
+    def transfer(n, st):
+        st = {k: set(v) for k, v in st.items()}
+        a = n.ast
+        if n.kind == 'stmt' and isinstance(a, ast.Assign):
+            h = holders(a.value, st)
+            for t in a.targets:
+                if isinstance(t, ast.Name):
+                    if h:
+                        st[t.id] = set(h)
+                    else:
+                        st.pop(t.id, None)
+                elif isinstance(t, (ast.Tuple, ast.List)):
+                    for x in ast.walk(t):
+                        if isinstance(x, ast.Name):
+                            st.pop(x.id, None)
+        elif n.kind == 'stmt' and isinstance(a, ast.AnnAssign) and \
+                isinstance(a.target, ast.Name):
+            h = holders(a.value, st) if a.value is not None else []
+            if h:
+                st[a.target.id] = set(h)
+            else:
+                st.pop(a.target.id, None)
+        elif n.kind in ('for', 'with', 'handler'):
+            for root in ([a.target] if n.kind == 'for' else
+                         [it.optional_vars for it in a.items
+                          if it.optional_vars is not None]
+                         if n.kind == 'with' else []):
+                for x in ast.walk(root):
+                    if isinstance(x, ast.Name):
+                        st.pop(x.id, None)
+            if n.kind == 'handler' and a.name:
+                st.pop(a.name, None)
+        elif n.kind == 'stmt' and isinstance(a, ast.AugAssign) and \
+                isinstance(a.target, ast.Name):
+            # an immutable value is rebound by the augmented assignment
+            cur = st.get(a.target.id)
+            if cur and all(_mutable_value(d) is False for _, d in cur):
+                st.pop(a.target.id, None)
+        for x in n.walk():
+            if isinstance(x, ast.NamedExpr) and isinstance(x.target, ast.Name):
+                h = holders(x.value, st)
+                if h:
+                    st[x.target.id] = set(h)
+                else:
+                    st.pop(x.target.id, None)
+        return st
+
+    while work:
+        n = work.pop()
+        out = transfer(n, IN[n.id])
+        for s, _ in n.succ:
+            cur = IN[s.id]
+            changed = s.id not in seen_once
+            seen_once.add(s.id)
+            for k, v in out.items():
+                if not v <= cur.get(k, set()):
+                    cur.setdefault(k, set()).update(v)
+                    changed = True
+            if changed:
+                work.append(s)
+
+    hits = []
+    seen = set()
+    for n in g.nodes:
+        if n.ast is None or n.id not in seen_once and n is not g.entry:
+            continue
+        st = IN[n.id]
+        for x in n.walk():
+            tgt = how = None
+            if isinstance(x, ast.AugAssign):
+                tgt, how = x.target, 'is changed in place by `%s`' % \
+                    ast.unparse(x)[:60]
+                if isinstance(tgt, ast.Subscript):
+                    tgt, how = tgt.value, 'has an entry changed by `%s`' % \
+                        ast.unparse(x)[:60]
+                aug = True
+            elif isinstance(x, ast.Call) and isinstance(x.func, ast.Attribute) \
+                    and x.func.attr in _MUTATING:
+                tgt, how, aug = x.func.value, 'is changed by .%s()' % \
+                    x.func.attr, False
+            elif isinstance(x, ast.Subscript) and isinstance(
+                    x.ctx, (ast.Store, ast.Del)):
+                tgt, how, aug = x.value, 'has an entry stored / deleted', False
+            if tgt is None:
+                continue
+            for text, d in holders(tgt, st):
+                mv = _mutable_value(d)
+                if mv is False:
+                    continue
+                if mv is None and aug and not isinstance(
+                        getattr(x, 'target', None), ast.Subscript):
+                    raise AnalysisError(
+                        '`%s` is applied to %s, whose kind (mutable or not) '
+                        'is not visible from its definition `%s`' % (
+                            ast.unparse(x)[:50], text,
+                            ast.unparse(d)[:50]), x, rel(fi.path))
+                key = (id(x), text)
+                if key in seen:
+                    continue
+                seen.add(key)
+                via = not (shared_def(tgt) is not None)
+                hits.append((x, text, how, via))
+    return hits
+
+
+def pure_of_shared_state(report, R, db, funcs, what, consequence):
+    """None of `funcs` changes a module-/class-level object."""
+    n = 0
+    bad = 0
+    for fi in funcs:
+        if isinstance(fi.node, ast.Lambda):
+            n += 1
+            continue
+        n += 1
+        for x, text, how, via in shared_state_mutations(db, fi):
+            bad += 1
+            report.violation(
+                R, 'shared-state:%s:%s' % (fi.qualname, text), fi.path, x,
+                fi.qualname, '%s%s %s: %s' % (
+                    text, ' (through a local name bound to that very object)'
+                    if via else '', how, consequence))
+    if not bad:
+        report.ok(R, '%d %s: none changes an object that outlives the call '
+                  '(module-level or class-level container), directly or '
+                  'through a local alias' % (n, what))
+    return n
+
+
+# ---------------------------------------------------------------------------
+# a change of framing applies to what follows it on the wire
+def wire_writers(db, cg, M):
+    """Connection methods whose call can put bytes of a packet on the wire
+    (they reach _write_packet in the call graph)."""
+    inner = M.conn_method('_write_packet')
+    out = set()
+    for name in sorted(M.conn.attrs):
+        fi = db.own_method(M.conn, name)
+        if fi is None:
+            continue
+        if fi is inner or inner in cg.reachable([fi]):
+            out.add(fi)
+    return out
+
+
+def _may_write_now(e, M, writers):
+    """does this call event put a packet on the wire before it returns?"""
+    from .pathsum import is_const
+    tg = [t for t in (e.targets or ()) if t in writers]
+    if not tg:
+        return False
+    wp = M.conn_method('write_packet')
+    if all(t is wp for t in tg):
+        # write_packet only queues unless forced
+        force = None
+        if 'force' in wp.params:
+            i = wp.params.index('force') - 1
+            if len(e.args) > i:
+                force = e.args[i]
+            for k, v in e.kwargs or ():
+                if k == 'force':
+                    force = v
+        if force is None or (is_const(force) and not force[1]):
+            return False
+    return True
+
+
+def switch_is_quiet(report, R, db, S, M, cg, fi, paths, arm, is_switch,
+                    allowed=None, what='framing'):
+    """On every path of the reactor arm `arm` that performs the switch (the
+    stores `is_switch` selects), nothing is put on the wire before the last
+    of those stores except the calls `allowed` accepts: a packet written
+    there still leaves in the old framing, after the peer has changed."""
+    from .pathsum import struct
+    writers = wire_writers(db, cg, M)
+    if len(writers) < 3:
+        raise AnalysisError('fewer than three Connection methods reach '
+                            '_write_packet', fi.node, rel(fi.path))
+    pk = ('sym', fi.params[1])
+    n = 0
+    for p in paths:
+        if arm_of(p, pk) != arm:
+            continue
+        evs = p.flat(('call', 'store'))
+        last = max([i for i, e in enumerate(evs)
+                    if e.kind == 'store' and is_switch(e)] or [-1])
+        if last < 0:
+            continue
+        n += 1
+        for e in evs[:last]:
+            if e.kind != 'call' or not _may_write_now(e, M, writers):
+                continue
+            if allowed is not None and allowed(e):
+                continue
+            report.violation(
+                R, 'switch:%s:early-write:%s' % (arm, e.method()), e.fi.path
+                if e.fi is not None else fi.path, e.node, fi.qualname,
+                'while reacting to "%s", %s() can put packets on the wire '
+                'before the %s is switched [%s]: the peer has switched '
+                'already, so those packets leave in the framing it no '
+                'longer reads' % (arm, e.method(), what, p.cond_text()))
+            return n
+    if not n:
+        raise AnalysisError('no path of the "%s" arm performs the %s '
+                            'switch' % (arm, what), fi.node, rel(fi.path))
+    report.ok(R, '"%s" arm of %s: nothing is written between the packet and '
+              'the %s switch on %d path(s)' % (arm, fi.qualname, what, n))
+    return n
+
+
+# ---------------------------------------------------------------------------
+# protocol numbers are ordered by publication, never numerically
+_PV_ATTRS = ('protocol_version', 'server_protocol')
+_PV_PARAMS = ('pv', 'pv1', 'pv2', 'start_pv', 'end_pv', 'protocol_version',
+              'server_protocol')
+_ORD = {ast.Lt: lambda a, b: a < b, ast.LtE: lambda a, b: a <= b,
+        ast.Gt: lambda a, b: a > b, ast.GtE: lambda a, b: a >= b}
+
+
+def numeric_version_order(report, R, db, P, funcs=None):
+    """No function orders protocol numbers with < <= > >= (or an unkeyed
+    max / min / sorted): snapshot numbers (PRE | n) are numerically above
+    every release number, so numeric order disagrees with the order of
+    publication for supported versions.  A comparison with a literal is a
+    violation only when a supported version exists on which the numeric
+    verdict differs from the publication-order verdict."""
+    funcs = list(db.funcs) if funcs is None else list(funcs)
+    nbad = [len(report.violations)]
+    n = sites = 0
+    for fi in funcs:
+        n += 1
+        node = fi.node
+        params = set(fi.params or ())
+        pv_names = set(p for p in params if p in _PV_PARAMS)
+        body = node.body if isinstance(node.body, list) else [node.body]
+        # local aliases of a protocol number
+        changed = True
+        while changed:
+            changed = False
+            for st in body:
+                for x in ast.walk(st):
+                    if isinstance(x, ast.Assign) and len(x.targets) == 1 and \
+                            isinstance(x.targets[0], ast.Name) and \
+                            x.targets[0].id not in pv_names and is_pv(
+                                x.value, pv_names):
+                        pv_names.add(x.targets[0].id)
+                        changed = True
+        for st in body:
+            for x in ast.walk(st):
+                if isinstance(x, ast.Compare):
+                    left = x.left
+                    for op, right in zip(x.ops, x.comparators):
+                        if type(op) in _ORD and (is_pv(left, pv_names) or
+                                                 is_pv(right, pv_names)):
+                            sites += 1
+                            _judge(report, R, db, P, fi, x, op, left, right,
+                                   pv_names)
+                        left = right
+                elif isinstance(x, ast.Call) and isinstance(x.func, ast.Name) \
+                        and x.func.id in ('max', 'min', 'sorted') and \
+                        not any(k.arg == 'key' for k in x.keywords) and \
+                        x.args and any(is_pv(a, pv_names) for a in x.args) \
+                        and len(x.args) > 1:
+                    sites += 1
+                    report.violation(
+                        R, 'numeric-order:%s:%s' % (fi.qualname, x.func.id),
+                        fi.path, x, fi.qualname, '%s() orders protocol '
+                        'numbers numerically (no key): snapshot numbers are '
+                        'above every release number, so this is not the '
+                        'order of publication' % x.func.id)
+    if nbad[0] == len(report.violations):
+        report.ok(R, '%d functions: no protocol number is ordered '
+                  'numerically (%d ordering sites judged)' % (n, sites))
+    return n
+
+
+def is_pv(e, names):
+    if isinstance(e, ast.Attribute) and e.attr in _PV_ATTRS:
+        return True
+    if isinstance(e, ast.Name) and e.id in names:
+        return True
+    return False
+
+
+def _judge(report, R, db, P, fi, x, op, left, right, names):
+    f = _ORD[type(op)]
+    lit = None
+    flip = False
+    both = is_pv(left, names) and is_pv(right, names)
+    if not both:
+        a, b, flip = (left, right, False) if is_pv(left, names) else \
+            (right, left, True)
+        v = None
+        try:
+            v = ast.literal_eval(b)
+        except Exception:
+            if isinstance(b, (ast.Name, ast.Attribute)):
+                try:
+                    ent = db.resolve_dotted(fi.module, b)
+                except AnalysisError:
+                    ent = None
+                if isinstance(ent, tuple) and ent[0] == 'value':
+                    try:
+                        v = ast.literal_eval(ent[1])
+                    except Exception:
+                        v = None
+        if isinstance(v, int) and not isinstance(v, bool):
+            lit = v
+        else:
+            raise AnalysisError('a protocol number is ordered against `%s`, '
+                                'which does not fold to a number'
+                                % ast.unparse(b)[:40], x, rel(fi.path))
+    where = ast.unparse(x)[:70]
+    if lit is None:
+        report.violation(
+            R, 'numeric-order:%s:%s' % (fi.qualname, where), fi.path, x,
+            fi.qualname, '`%s` orders two protocol numbers numerically: '
+            'snapshot numbers (PRE | n) are above every release number, so '
+            'for supported versions this is not the order of publication'
+            % where)
+        return
+    if lit not in P.index:
+        report.violation(
+            R, 'numeric-order:%s:%s' % (fi.qualname, where), fi.path, x,
+            fi.qualname, '`%s` compares a protocol number with %d, which is '
+            'not a known protocol version' % (where, lit))
+        return
+    bad = []
+    for v in P.supported:
+        num = f(lit, v) if flip else f(v, lit)
+        pub = f(P.index[lit], P.index[v]) if flip else \
+            f(P.index[v], P.index[lit])
+        if num != pub:
+            bad.append(v)
+    if bad:
+        report.violation(
+            R, 'numeric-order:%s:%s' % (fi.qualname, where), fi.path, x,
+            fi.qualname, '`%s` orders protocol numbers numerically; for %d '
+            'supported version(s), e.g. %s, that differs from the order of '
+            'publication the version predicates use (snapshot numbers are '
+            'above every release number)' % (where, len(bad),
+                                             P.vname(bad[0])))
+    else:
+        report.ok(R)
+
+
+# ---------------------------------------------------------------------------
+_OSERROR_SUPERS = ('OSError', 'IOError', 'EnvironmentError', 'Exception',
+                   'BaseException', 'socket.error', 'select.error',
+                   'builtins.OSError', 'builtins.IOError',
+                   'builtins.Exception', 'builtins.BaseException',
+                   'builtins.EnvironmentError', 'os.error')
+
+
+def handler_covers_oserror(db, fi, h):
+    """Does the except clause `h` (in function fi) take *every* OSError --
+    what a socket call raises when the peer is gone (ENOTCONN is a plain
+    OSError, not a ConnectionError)?  True / False, or None when a handler
+    class cannot be resolved."""
+    from .srcdb import External, ClassInfo
+    if h.type is None:
+        return True
+    types = h.type.elts if isinstance(h.type, ast.Tuple) else [h.type]
+    unknown = False
+    for t in types:
+        name = None
+        if isinstance(t, ast.Name) and db.module_attr(
+                fi.module.name, t.id) is None:
+            name = t.id                   # a builtin
+        else:
+            try:
+                ent = db.deref(db.resolve_dotted(fi.module, t))
+            except AnalysisError:
+                ent = None
+            if isinstance(ent, External):
+                name = ent.dotted
+            elif isinstance(ent, ClassInfo):
+                continue                  # an in-repo class: not OSError
+            else:
+                unknown = True
+                continue
+        if name in _OSERROR_SUPERS:
+            return True
+    return None if unknown else False
+
+
+def is_packet_decode(e):
+    """The call event hands a buffer to a packet's decoder: `.read(buf)`
+    resolved to Packet.read (or an override), or -- when the receiver's
+    class is only known at run time -- `.read(buf)` on an instance the path
+    has just made by calling something (the class looked up in the decoder
+    table)."""
+    if e.kind != 'call' or e.method() != 'read':
+        return False
+    if any(t.name == 'read' and t.cls is not None and t.cls.name == 'Packet'
+           for t in (e.targets or ())):
+        return True
+    if not (e.targets or ()) and e.fn[0] == 'attr' and \
+            e.fn[1][0] == 'call' and len(e.args) == 1:
+        return True
+    return False
